@@ -1609,177 +1609,202 @@ fn adjust12(h: u32, pm: bool) -> u32 {
     if pm { if h == 12 { 12 } else { h + 12 } } else { if h == 12 { 0 } else { h } }
 }
 
-/// what the property prescribes for a picture `fields[..n]`, given the scanners' results in the log
-fn ref_glue<T: DateTimeFormat>(fields: &[Field], n: usize, text: &[u8], cy: i64, cm: u32, rp: &mut Replay) -> Option<RefRec> {
+/// the parser's state between two picture tokens, as the property sees it: the record built so far, which
+/// components the text has supplied, and how much of the text is consumed
+#[derive(Clone, Copy)]
+pub struct RefState {
+    r: RefRec,
+    pos: usize,
+    year_set: bool, month_set: bool, day_set: bool, min_set: bool, sec_set: bool, frac_set: bool,
+    hour_set: Option<bool>,   // Some(true): 24-hour field seen, Some(false): 12-hour field seen
+    ampm: Option<bool>,       // Some(pm)
+    dow: Option<u32>,
+    doy: Option<u32>,
+}
+
+const REF_INIT: RefState = RefState {
+    r: RefRec { year: 1, month: 0, day: 1, hour: 0, minute: 0, sec: 0, usec: 0, negative: false },
+    pos: 0, year_set: false, month_set: false, day_set: false, min_set: false, sec_set: false, frac_set: false,
+    hour_set: None, ampm: None, dow: None, doy: None,
+};
+
+/// one picture token: false = the text is rejected
+fn ref_step<T: DateTimeFormat>(st: &mut RefState, field: &Field, text: &[u8], cy: i64, rp: &mut Replay) -> bool {
     let date = T::HAS_DATE;
     let time = T::HAS_TIME;
     let ym = T::IS_INTERVAL_YM;
     let dtv = T::IS_INTERVAL_DT;
     let len = text.len();
-    let mut r = RefRec { year: 1, month: 0, day: 1, hour: 0, minute: 0, sec: 0, usec: 0, negative: false };
-    let mut pos = 0usize;
-    let (mut year_set, mut month_set, mut day_set, mut min_set, mut sec_set, mut frac_set) = (false, false, false, false, false, false);
-    let mut hour_set: Option<bool> = None;   // Some(true): 24-hour field seen, Some(false): 12-hour field seen
-    let mut ampm: Option<bool> = None;       // Some(pm)
-    let mut ampm_seen = false;
-    let mut dow: Option<u32> = None;
-    let mut doy: Option<u32> = None;
-    let mut i = 0;
-    while i < n {
-        pos += rp.next(7).used;
-        let empty = pos >= len;
-        match &fields[i] {
-            Field::Invalid => return None,
-            Field::Blank(_) => {}
-            Field::Hyphen | Field::Colon | Field::Dot => {
-                let c = match &fields[i] { Field::Hyphen => b'-', Field::Colon => b':', _ => b'.' };
-                if !empty { if text[pos] == c { pos += 1; } else { return None; } }
+    st.pos += rp.next(7).used;
+    let empty = st.pos >= len;
+    match field {
+        Field::Invalid => return false,
+        Field::Blank(_) => {}
+        Field::Hyphen | Field::Colon | Field::Dot => {
+            let c = match field { Field::Hyphen => b'-', Field::Colon => b':', _ => b'.' };
+            if !empty { if text[st.pos] == c { st.pos += 1; } else { return false; } }
+        }
+        Field::Slash | Field::Backslash | Field::Comma | Field::Semicolon | Field::T => {
+            let c = match field { Field::Slash => b'/', Field::Backslash => b'\\', Field::Comma => b',', Field::Semicolon => b';', _ => b'T' };
+            if !empty && text[st.pos] == c { st.pos += 1; } else { return false; }
+        }
+        Field::Year(k) => {
+            if !(date || ym) || st.year_set { return false; }
+            let k = *k as usize;
+            let max = if ym { 9 } else if k == 2 { 4 } else { k };
+            let e = rp.next(1);
+            if e.arg != max { rp.bad = true; }
+            if !e.ok { return false; }
+            let y = if ym || k == 4 { e.val } else if k == 2 { if e.used > 2 { e.val } else { cy - cy % 100 + e.val } }
+                    else if k == 1 { cy - cy % 10 + e.val } else { cy - cy % 1000 + e.val };
+            if e.neg && date { return false; }
+            st.r.negative = e.neg;
+            st.r.year = y;
+            st.year_set = true;
+            st.pos += e.used;
+        }
+        Field::Month => {
+            if !(date || ym) || st.month_set { return false; }
+            let e = rp.next(1);
+            if e.arg != 2 { rp.bad = true; }
+            if e.ok {
+                if e.neg { return false; }
+                st.r.month = e.val as u32;
+                st.pos += e.used;
+            } else {
+                let e2 = rp.next(4);
+                if !e2.ok { return false; }
+                st.r.month = e2.val as u32;
+                st.pos += e2.used;
             }
-            Field::Slash | Field::Backslash | Field::Comma | Field::Semicolon | Field::T => {
-                let c = match &fields[i] { Field::Slash => b'/', Field::Backslash => b'\\', Field::Comma => b',', Field::Semicolon => b';', _ => b'T' };
-                if !empty && text[pos] == c { pos += 1; } else { return None; }
-            }
-            Field::Year(k) => {
-                if !(date || ym) || year_set { return None; }
-                let k = *k as usize;
-                let max = if ym { 9 } else if k == 2 { 4 } else { k };
-                let e = rp.next(1);
-                if e.arg != max { rp.bad = true; }
-                if !e.ok { return None; }
-                let y = if ym || k == 4 { e.val } else if k == 2 { if e.used > 2 { e.val } else { cy - cy % 100 + e.val } }
-                        else if k == 1 { cy - cy % 10 + e.val } else { cy - cy % 1000 + e.val };
-                if e.neg && date { return None; }
-                r.negative = e.neg;
-                r.year = y;
-                year_set = true;
-                pos += e.used;
-            }
-            Field::Month => {
-                if !(date || ym) || month_set { return None; }
+            st.month_set = true;
+        }
+        Field::Day => {
+            if !(date || dtv) || st.day_set { return false; }
+            let e = rp.next(1);
+            if e.arg != (if dtv { 9 } else { 2 }) { rp.bad = true; }
+            if !e.ok { return false; }
+            if date && e.neg { return false; }
+            st.r.day = e.val.unsigned_abs() as u32;
+            st.r.negative = e.neg;
+            st.day_set = true;
+            st.pos += e.used;
+        }
+        Field::Hour24 | Field::Minute | Field::Second => {
+            if !time { return false; }
+            let dup = match field { Field::Hour24 => st.hour_set.is_some(), Field::Minute => st.min_set, _ => st.sec_set };
+            if dup { return false; }
+            if let Field::Hour24 = field { if st.ampm.is_some() { return false; } }
+            let v = if !dtv && empty { 0 } else {
                 let e = rp.next(1);
                 if e.arg != 2 { rp.bad = true; }
-                if e.ok {
-                    if e.neg { return None; }
-                    r.month = e.val as u32;
-                    pos += e.used;
-                } else {
-                    let e2 = rp.next(4);
-                    if !e2.ok { return None; }
-                    r.month = e2.val as u32;
-                    pos += e2.used;
-                }
-                month_set = true;
-            }
-            Field::Day => {
-                if !(date || dtv) || day_set { return None; }
-                let e = rp.next(1);
-                if e.arg != (if dtv { 9 } else { 2 }) { rp.bad = true; }
-                if !e.ok { return None; }
-                if date && e.neg { return None; }
-                r.day = e.val.unsigned_abs() as u32;
-                r.negative = e.neg;
-                day_set = true;
-                pos += e.used;
-            }
-            Field::Hour24 | Field::Minute | Field::Second => {
-                if !time { return None; }
-                let dup = match &fields[i] { Field::Hour24 => hour_set.is_some(), Field::Minute => min_set, _ => sec_set };
-                if dup { return None; }
-                if let Field::Hour24 = &fields[i] { if ampm.is_some() { return None; } }
-                let v = if !dtv && empty { 0 } else {
-                    let e = rp.next(1);
-                    if e.arg != 2 { rp.bad = true; }
-                    if !e.ok || e.neg { return None; }
-                    pos += e.used;
-                    e.val as u32
-                };
-                match &fields[i] { Field::Hour24 => { r.hour = v; hour_set = Some(true); } Field::Minute => { r.minute = v; min_set = true; } _ => { r.sec = v; sec_set = true; } }
-            }
-            Field::Hour12 => {
-                if !(time && !dtv) || hour_set.is_some() { return None; }
-                let v = if empty { 12 } else {
-                    let e = rp.next(1);
-                    if e.arg != 2 { rp.bad = true; }
-                    if !e.ok || e.neg { return None; }
-                    pos += e.used;
-                    e.val
-                };
-                if v < 1 || v > 12 { return None; }
-                r.hour = match ampm { Some(pm) => adjust12(v as u32, pm), None => v as u32 };
-                hour_set = Some(false);
-            }
-            Field::Fraction(p) => {
-                if !T::HAS_FRACTION || frac_set { return None; }
-                if !empty {
-                    if text[pos] == b'-' { return None; }
-                    let e = rp.next(2);
-                    if e.arg != p.unwrap_or(9) as usize { rp.bad = true; }
-                    r.usec = e.val as u32;
-                    pos += e.used;
-                }
-                frac_set = true;
-            }
-            Field::AmPm(_) => {
-                if !(time && !dtv) || ampm.is_some() { return None; }
-                if hour_set == Some(true) { return None; }
-                if !empty {
-                    let e = rp.next(3);
-                    if !e.ok { return None; }
-                    ampm = Some(e.neg);
-                    r.hour = adjust12(r.hour, e.neg);
-                    pos += e.used;
-                }
-                ampm_seen = true;
-            }
-            Field::MonthName(_) => {
-                if !date || month_set { return None; }
-                let e = rp.next(4);
-                if !e.ok { return None; }
-                r.month = e.val as u32;
-                month_set = true;
-                pos += e.used;
-            }
-            Field::DayName(_) | Field::DayOfWeek => {
-                if !date || dow.is_some() { return None; }
-                let e = rp.next(if let Field::DayOfWeek = &fields[i] { 6 } else { 5 });
-                if !e.ok { return None; }
-                dow = Some(e.val as u32);
-                pos += e.used;
-            }
-            Field::DayOfYear => {
-                if !date || doy.is_some() { return None; }
-                let e = rp.next(1);
-                if e.arg != 3 { rp.bad = true; }
-                if !e.ok || e.neg { return None; }
-                doy = Some(e.val as u32);
-                pos += e.used;
-            }
-            Field::WeekOfMonth | Field::WeekOfYear => return None,
+                if !e.ok || e.neg { return false; }
+                st.pos += e.used;
+                e.val as u32
+            };
+            match field { Field::Hour24 => { st.r.hour = v; st.hour_set = Some(true); } Field::Minute => { st.r.minute = v; st.min_set = true; } _ => { st.r.sec = v; st.sec_set = true; } }
         }
-        i += 1;
+        Field::Hour12 => {
+            if !(time && !dtv) || st.hour_set.is_some() { return false; }
+            let v = if empty { 12 } else {
+                let e = rp.next(1);
+                if e.arg != 2 { rp.bad = true; }
+                if !e.ok || e.neg { return false; }
+                st.pos += e.used;
+                e.val
+            };
+            if v < 1 || v > 12 { return false; }
+            st.r.hour = match st.ampm { Some(pm) => adjust12(v as u32, pm), None => v as u32 };
+            st.hour_set = Some(false);
+        }
+        Field::Fraction(p) => {
+            if !T::HAS_FRACTION || st.frac_set { return false; }
+            if !empty {
+                if text[st.pos] == b'-' { return false; }
+                let e = rp.next(2);
+                if e.arg != p.unwrap_or(9) as usize { rp.bad = true; }
+                st.r.usec = e.val as u32;
+                st.pos += e.used;
+            } else {
+                st.r.usec = 0;      // an omitted trailing fraction is zero
+            }
+            st.frac_set = true;
+        }
+        Field::AmPm(_) => {
+            if !(time && !dtv) || st.ampm.is_some() { return false; }
+            if st.hour_set == Some(true) { return false; }
+            if !empty {
+                let e = rp.next(3);
+                if !e.ok { return false; }
+                st.ampm = Some(e.neg);
+                st.r.hour = adjust12(st.r.hour, e.neg);
+                st.pos += e.used;
+            }
+        }
+        Field::MonthName(_) => {
+            if !date || st.month_set { return false; }
+            let e = rp.next(4);
+            if !e.ok { return false; }
+            st.r.month = e.val as u32;
+            st.month_set = true;
+            st.pos += e.used;
+        }
+        Field::DayName(_) | Field::DayOfWeek => {
+            if !date || st.dow.is_some() { return false; }
+            let e = rp.next(if let Field::DayOfWeek = field { 6 } else { 5 });
+            if !e.ok { return false; }
+            st.dow = Some(e.val as u32);
+            st.pos += e.used;
+        }
+        Field::DayOfYear => {
+            if !date || st.doy.is_some() { return false; }
+            let e = rp.next(1);
+            if e.arg != 3 { rp.bad = true; }
+            if !e.ok || e.neg { return false; }
+            st.doy = Some(e.val as u32);
+            st.pos += e.used;
+        }
+        Field::WeekOfMonth | Field::WeekOfYear => return false,
     }
-    pos += rp.next(7).used;
-    if pos < len { return None; }
-    if date {
-        if !year_set { r.year = cy; }
-        if !month_set { r.month = cm; }
+    true
+}
+
+/// after the last token: left-over text, defaults from the clock, day-of-year and weekday cross-checks
+fn ref_finish<T: DateTimeFormat>(st: &RefState, text: &[u8], cy: i64, cm: u32, rp: &mut Replay) -> Option<RefRec> {
+    let mut r = st.r;
+    let pos = st.pos + rp.next(7).used;
+    if pos < text.len() { return None; }
+    if T::HAS_DATE {
+        if !st.year_set { r.year = cy; }
+        if !st.month_set { r.month = cm; }
     }
-    if let Some(d) = doy {
+    if let Some(d) = st.doy {
         let leap = k_leap(r.year);
         if d == 0 || d > (if leap { 366 } else { 365 }) { return None; }
         let mut m = 1u32;
         while m < 12 && (k_cum(m as i64 + 1) + (if m + 1 > 2 && leap { 1 } else { 0 })) < d as i64 { m += 1; }
         let dd = (d as i64 - k_cum(m as i64) - (if m > 2 && leap { 1 } else { 0 })) as u32;
-        if month_set && m != r.month { return None; }
-        if day_set && dd != r.day { return None; }
+        if st.month_set && m != r.month { return None; }
+        if st.day_set && dd != r.day { return None; }
         r.month = m;
         r.day = dd;
     }
-    if let Some(w) = dow {
+    if let Some(w) = st.dow {
         if !k_date_ok(r.year, r.month as i64, r.day as i64) { return None; }
         if k_wd(k_dn(r.year, r.month as i64, r.day as i64)) != w as i64 { return None; }
     }
     Some(r)
+}
+
+/// what the property prescribes for a picture `fields[..n]`, given the scanners' results in the log
+fn ref_glue<T: DateTimeFormat>(fields: &[Field], n: usize, text: &[u8], cy: i64, cm: u32, rp: &mut Replay) -> Option<RefRec> {
+    let mut st = REF_INIT;
+    let mut i = 0;
+    while i < n {
+        if !ref_step::<T>(&mut st, &fields[i], text, cy, rp) { return None; }
+        i += 1;
+    }
+    ref_finish::<T>(&st, text, cy, cm, rp)
 }
 
 fn parse_glue_check<T: DateTimeFormat>(maxn: usize) {
@@ -1903,6 +1928,280 @@ parse_glue_harness!(parse_glue2_timestamp_bounded, Timestamp, 2);
 parse_glue_harness!(parse_glue2_interval_ym_bounded, IntervalYM, 2);
 parse_glue_harness!(parse_glue2_interval_dt_bounded, IntervalDT, 2);
 parse_glue_harness!(parse_glue3_timestamp_bounded, Timestamp, 3);
+
+// >>> parse_ind
+// =========================================================================================
+// C05 / C06 / C18 / C03: parse_internal for pictures of ANY length, by induction over the picture.
+//
+// kanirun places two observation points in the scratch copy of parse_internal (cfg(kani) only, nothing removed or
+// reordered): `loop_head_hook` as the first statement of the field loop's body and `after_loop_hook` right after the
+// loop; both receive every loop-carried local by &mut.  With them the loop is cut into the three obligations of an
+// inductive invariant "the locals represent RefState st, and st == the reference's state for the tokens consumed":
+//   init   : entering the loop, the locals represent REF_INIT (and REF_INIT satisfies the state invariant);
+//   step   : from ANY state satisfying the invariant, ANY one token, any text, any clock: the body either rejects
+//            exactly when ref_step rejects, or leaves locals that represent ref_step's state (invariant preserved);
+//   finish : from ANY state satisfying the invariant, the code after the loop returns exactly ref_finish.
+// Together: parse_internal(picture, text) == ref_glue(picture, text) for every picture the lexer can produce.
+// The leaf scanners are the same logged oracles as in parse_glue_* (their contracts: scan_*_bounded).
+// =========================================================================================
+pub static mut H_MODE: u8 = 0;          // 0 inert, 1 step, 2 finish, 3 init
+pub static mut H_HEAD_CALLS: u8 = 0;
+pub static mut H_REACHED: bool = false;
+pub static mut H_STATE: RefState = REF_INIT;
+pub static mut H_OUT: RefState = REF_INIT;
+pub static mut H_OUT_TEXT_OK: bool = false;
+pub static mut H_BASE: *const u8 = core::ptr::null();
+pub static mut H_LEN: usize = 0;
+
+type Locals<'x, 'a> = (&'x mut &'a [u8], &'x mut NaiveDateTime, &'x mut bool, &'x mut bool, &'x mut bool, &'x mut Option<bool>, &'x mut bool,
+                       &'x mut bool, &'x mut bool, &'x mut Option<WeekDay>, &'x mut Option<u32>);
+
+fn locals_load(l: Locals, st: &RefState) {
+    let (s, dt, ys, ms, ds, h24, mis, ss, fs, dow, doy) = l;
+    unsafe { *s = core::slice::from_raw_parts(H_BASE.add(st.pos), H_LEN - st.pos); }
+    dt.year = st.r.year as i32;
+    dt.month = st.r.month; dt.day = st.r.day; dt.hour = st.r.hour; dt.minute = st.r.minute; dt.sec = st.r.sec; dt.usec = st.r.usec;
+    dt.negative = st.r.negative;
+    dt.ampm = match st.ampm { None => None, Some(true) => Some(AmPm::Pm), Some(false) => Some(AmPm::Am) };
+    *ys = st.year_set; *ms = st.month_set; *ds = st.day_set; *h24 = st.hour_set; *mis = st.min_set; *ss = st.sec_set; *fs = st.frac_set;
+    *dow = match st.dow { None => None, Some(w) => Some(WeekDay::from(w as usize)) };
+    *doy = st.doy;
+}
+
+fn locals_store(l: Locals) {
+    let (s, dt, ys, ms, ds, h24, mis, ss, fs, dow, doy) = l;
+    let len = unsafe { H_LEN };
+    // the unread text must be a suffix of the input
+    let text_ok = s.len() <= len && s.as_ptr() == unsafe { H_BASE.add(len - s.len()) };
+    let st = RefState {
+        r: RefRec { year: dt.year as i64, month: dt.month, day: dt.day, hour: dt.hour, minute: dt.minute, sec: dt.sec, usec: dt.usec, negative: dt.negative },
+        pos: if text_ok { len - s.len() } else { 0 },
+        year_set: *ys, month_set: *ms, day_set: *ds, min_set: *mis, sec_set: *ss, frac_set: *fs,
+        hour_set: *h24,
+        ampm: match &dt.ampm { None => None, Some(AmPm::Pm) => Some(true), Some(AmPm::Am) => Some(false) },
+        dow: match dow { None => None, Some(w) => Some(*w as u32) },
+        doy: *doy,
+    };
+    unsafe { H_OUT = st; H_OUT_TEXT_OK = text_ok; H_REACHED = true; }
+}
+
+#[allow(clippy::too_many_arguments)]
+pub fn loop_head_hook<'a, T: DateTimeFormat>(s: &mut &'a [u8], dt: &mut NaiveDateTime, ys: &mut bool, ms: &mut bool, ds: &mut bool, h24: &mut Option<bool>,
+                                             mis: &mut bool, ss: &mut bool, fs: &mut bool, dow: &mut Option<WeekDay>, doy: &mut Option<u32>) {
+    if unsafe { H_MODE } != 1 { return; }
+    let k = unsafe { H_HEAD_CALLS };
+    unsafe { H_HEAD_CALLS = k + 1; }
+    if k == 0 {
+        let st = unsafe { H_STATE };
+        locals_load((s, dt, ys, ms, ds, h24, mis, ss, fs, dow, doy), &st);
+    } else if k == 1 {
+        locals_store((&mut *s, &mut *dt, &mut *ys, &mut *ms, &mut *ds, &mut *h24, &mut *mis, &mut *ss, &mut *fs, &mut *dow, &mut *doy));
+        // the state after one token has been recorded; what follows is not part of the obligation: make it trivial
+        let t: &'a [u8] = *s;
+        *s = &t[t.len()..];
+        *dow = None;
+        *doy = None;
+    }
+}
+
+#[allow(clippy::too_many_arguments)]
+pub fn after_loop_hook<'a, T: DateTimeFormat>(s: &mut &'a [u8], dt: &mut NaiveDateTime, ys: &mut bool, ms: &mut bool, ds: &mut bool, h24: &mut Option<bool>,
+                                              mis: &mut bool, ss: &mut bool, fs: &mut bool, dow: &mut Option<WeekDay>, doy: &mut Option<u32>) {
+    let mode = unsafe { H_MODE };
+    if mode == 2 {
+        let st = unsafe { H_STATE };
+        locals_load((s, dt, ys, ms, ds, h24, mis, ss, fs, dow, doy), &st);
+    } else if mode == 3 {
+        locals_store((s, dt, ys, ms, ds, h24, mis, ss, fs, dow, doy));
+    }
+}
+
+/// the state invariant: what every scanner contract bounds, and the hour / meridian bookkeeping
+fn ref_inv(st: &RefState, len: usize) -> bool {
+    let r = &st.r;
+    let hour_ok = match (st.hour_set, st.ampm) {
+        (None, None) => r.hour == 0,
+        (None, Some(pm)) => r.hour == if pm { 12 } else { 0 },
+        (Some(true), None) => r.hour <= 99,
+        (Some(true), Some(_)) => false,
+        (Some(false), None) => r.hour >= 1 && r.hour <= 12,
+        (Some(false), Some(pm)) => if pm { r.hour >= 12 && r.hour <= 23 } else { r.hour <= 11 },
+    };
+    st.pos <= len && hour_ok
+        && r.year >= -999_999_999 && r.year <= 999_999_999 && r.month <= 99 && r.day <= 999_999_999
+        && r.minute <= 99 && r.sec <= 99 && r.usec <= 1_000_000
+        && match st.doy { None => true, Some(d) => d <= 999 }
+        && match st.dow { None => true, Some(w) => w >= 1 && w <= 7 }
+}
+
+fn state_eq(a: &RefState, b: &RefState) -> bool {
+    a.r.year == b.r.year && a.r.month == b.r.month && a.r.day == b.r.day && a.r.hour == b.r.hour && a.r.minute == b.r.minute
+        && a.r.sec == b.r.sec && a.r.usec == b.r.usec && a.r.negative == b.r.negative && a.pos == b.pos
+        && a.year_set == b.year_set && a.month_set == b.month_set && a.day_set == b.day_set && a.min_set == b.min_set
+        && a.sec_set == b.sec_set && a.frac_set == b.frac_set && a.hour_set == b.hour_set && a.ampm == b.ampm && a.dow == b.dow && a.doy == b.doy
+}
+
+fn any_state(len: usize) -> RefState {
+    let y: i32 = kani::any();
+    let st = RefState {
+        r: RefRec { year: y as i64, month: kani::any(), day: kani::any(), hour: kani::any(), minute: kani::any(), sec: kani::any(), usec: kani::any(), negative: kani::any() },
+        pos: kani::any(),
+        year_set: kani::any(), month_set: kani::any(), day_set: kani::any(), min_set: kani::any(), sec_set: kani::any(), frac_set: kani::any(),
+        hour_set: kani::any(), ampm: kani::any(), dow: kani::any(), doy: kani::any(),
+    };
+    kani::assume(ref_inv(&st, len));
+    st
+}
+
+fn clone_field(f: &Field) -> Field {
+    match f {
+        Field::Blank(k) => Field::Blank(*k), Field::Hyphen => Field::Hyphen, Field::Colon => Field::Colon, Field::Slash => Field::Slash,
+        Field::Backslash => Field::Backslash, Field::Comma => Field::Comma, Field::Dot => Field::Dot, Field::Semicolon => Field::Semicolon, Field::T => Field::T,
+        Field::Year(k) => Field::Year(*k), Field::Month => Field::Month, Field::Day => Field::Day, Field::DayName(s) => Field::DayName(*s),
+        Field::MonthName(s) => Field::MonthName(*s), Field::Hour24 => Field::Hour24, Field::Hour12 => Field::Hour12, Field::Minute => Field::Minute,
+        Field::Second => Field::Second, Field::Fraction(p) => Field::Fraction(*p),
+        Field::AmPm(s) => Field::AmPm(match s { AmPmStyle::Upper => AmPmStyle::Upper, AmPmStyle::Lower => AmPmStyle::Lower, AmPmStyle::UpperDot => AmPmStyle::UpperDot, AmPmStyle::LowerDot => AmPmStyle::LowerDot }),
+        Field::DayOfWeek => Field::DayOfWeek, Field::DayOfYear => Field::DayOfYear, Field::WeekOfMonth => Field::WeekOfMonth, Field::WeekOfYear => Field::WeekOfYear,
+        Field::Invalid => Field::Invalid,
+    }
+}
+
+fn ind_text() -> ([u8; GTXT], usize) {
+    let bytes: [u8; GTXT] = kani::any();
+    let len: usize = kani::any();
+    kani::assume(len <= GTXT);
+    let mut i = 0;
+    while i < GTXT { kani::assume(bytes[i] < 128); i += 1; }
+    (bytes, len)
+}
+
+/// the unread text of an intermediate state: ANY bytes (a superset of the suffixes of a valid &str)
+fn ind_bytes() -> ([u8; GTXT], usize) {
+    let bytes: [u8; GTXT] = kani::any();
+    let len: usize = kani::any();
+    kani::assume(len <= GTXT);
+    (bytes, len)
+}
+
+/// any token the lexer can produce (blank runs of every length)
+fn any_field_parse() -> Field {
+    match any_field() {
+        Field::Blank(_) => { let n: u8 = kani::any(); kani::assume(n >= 1); Field::Blank(n) }
+        f => f,
+    }
+}
+
+fn parse_ind_init_check<T: DateTimeFormat>() {
+    let _c = crate::kverif::set_any_clock(false);
+    let (bytes, len) = ind_text();
+    let text = unsafe { core::str::from_utf8_unchecked(&bytes[..len]) };
+    unsafe { H_MODE = 3; H_REACHED = false; H_BASE = bytes.as_ptr(); H_LEN = len; K_LOG_LEN = 0; }
+    let fmt = Formatter { fields: StackVec::new(), format_exact: false };
+    let _got: Result<Probe<T>> = fmt.parse_internal::<&str, Probe<T>, false>(text);
+    assert!(unsafe { H_REACHED });
+    let o = unsafe { H_OUT };
+    assert!(unsafe { H_OUT_TEXT_OK });
+    assert!(state_eq(&o, &REF_INIT));
+    assert!(ref_inv(&REF_INIT, len));
+    assert!(unsafe { K_LOG_LEN } <= 1);      // nothing scanned before the loop (the one entry is the blank skip after it)
+}
+
+fn parse_ind_step_check<T: DateTimeFormat>(f: Field) {
+    let c = crate::kverif::set_any_clock(false);
+    let (bytes, len) = ind_bytes();
+    let text = "";          // `input` is only quoted in error messages; the unread text comes from the state
+    let st0 = any_state(len);
+    unsafe { H_MODE = 1; H_HEAD_CALLS = 0; H_REACHED = false; H_STATE = st0; H_BASE = bytes.as_ptr(); H_LEN = len; K_LOG_LEN = 0; }
+    let mut fields = StackVec::new();
+    fields.push(clone_field(&f));
+    fields.push(Field::Blank(1));
+    let fmt = Formatter { fields, format_exact: false };
+    let got: Result<Probe<T>> = fmt.parse_internal::<&str, Probe<T>, false>(text);
+    let mut rp = Replay { at: 0, bad: false };
+    let mut st1 = st0;
+    let ok = ref_step::<T>(&mut st1, &f, &bytes[..len], c[0] as i64, &mut rp);
+    if unsafe { H_REACHED } {
+        assert!(ok);
+        assert!(!rp.bad);
+        assert!(unsafe { H_OUT_TEXT_OK });
+        let o = unsafe { H_OUT };
+        assert!(o.r.year == st1.r.year && o.r.month == st1.r.month && o.r.day == st1.r.day);
+        assert!(o.r.hour == st1.r.hour);
+        assert!(o.r.minute == st1.r.minute && o.r.sec == st1.r.sec && o.r.usec == st1.r.usec);
+        assert!(o.r.negative == st1.r.negative);
+        assert!(o.pos == st1.pos);
+        assert!(o.year_set == st1.year_set && o.month_set == st1.month_set && o.day_set == st1.day_set);
+        assert!(o.hour_set == st1.hour_set && o.min_set == st1.min_set && o.sec_set == st1.sec_set && o.frac_set == st1.frac_set);
+        assert!(o.ampm == st1.ampm);
+        assert!(o.dow == st1.dow && o.doy == st1.doy);
+        assert!(state_eq(&o, &st1));
+        assert!(ref_inv(&st1, len));
+    } else {
+        assert!(!ok);
+        assert!(got.is_err());
+        assert!(!matches!(&got, Err(Error::ParseError(_))));    // no error text is ever built under the stubs
+    }
+}
+
+fn parse_ind_finish_check<T: DateTimeFormat>() {
+    let c = crate::kverif::set_any_clock(false);
+    let (bytes, len) = ind_bytes();
+    let text = "";
+    let st0 = any_state(len);
+    unsafe { H_MODE = 2; H_REACHED = false; H_STATE = st0; H_BASE = bytes.as_ptr(); H_LEN = len; K_LOG_LEN = 0; }
+    let fmt = Formatter { fields: StackVec::new(), format_exact: false };
+    let got: Result<Probe<T>> = fmt.parse_internal::<&str, Probe<T>, false>(text);
+    let mut rp = Replay { at: 0, bad: false };
+    match ref_finish::<T>(&st0, &bytes[..len], c[0] as i64, c[1], &mut rp) {
+        None => assert!(got.is_err()),
+        Some(r) => {
+            assert!(got.is_ok());
+            assert!(!rp.bad);
+            let g = got.unwrap();
+            assert!(g.year as i64 == r.year && g.month == r.month && g.day == r.day);
+            assert!(g.hour == r.hour && g.minute == r.minute && g.sec == r.sec && g.usec == r.usec);
+            assert!(g.negative == r.negative);
+        }
+    }
+}
+
+macro_rules! parse_ind_harness {
+    ($name:ident, $body:expr) => {
+        #[kani::proof]
+        #[kani::unwind(13)]
+        #[kani::stub(crate::util::try_format, stub_try_format)]
+        #[kani::stub(crate::common::date2julian, crate::kverif::date2julian_by_contract)]
+        #[kani::stub(chrono::Local::now, crate::kverif::stub_now_fixed)]
+        #[kani::stub(<chrono::NaiveDateTime as chrono::Datelike>::year, crate::kverif::clock_year)]
+        #[kani::stub(<chrono::NaiveDateTime as chrono::Datelike>::month, crate::kverif::clock_month)]
+        #[kani::stub(<chrono::NaiveDateTime as chrono::Datelike>::day, crate::kverif::clock_day)]
+        #[kani::stub(parse_number, parse_number_oracle)]
+        #[kani::stub(parse_fraction, parse_fraction_oracle)]
+        #[kani::stub(parse_ampm, parse_ampm_oracle)]
+        #[kani::stub(parse_month_name, parse_month_name_oracle)]
+        #[kani::stub(parse_week_day_name, parse_week_day_name_oracle)]
+        #[kani::stub(parse_week_day_number, parse_week_day_number_oracle)]
+        #[kani::stub(eat_whitespaces, eat_whitespaces_oracle)]
+        #[kani::stub(<str as crate::util::StrExt>::try_to_string, stub_try_to_string)]
+        fn $name() { $body }
+    };
+}
+parse_ind_harness!(parse_ind_init_date, parse_ind_init_check::<Date>());
+parse_ind_harness!(parse_ind_init_time, parse_ind_init_check::<Time>());
+parse_ind_harness!(parse_ind_init_timestamp, parse_ind_init_check::<Timestamp>());
+parse_ind_harness!(parse_ind_init_interval_ym, parse_ind_init_check::<IntervalYM>());
+parse_ind_harness!(parse_ind_init_interval_dt, parse_ind_init_check::<IntervalDT>());
+parse_ind_harness!(parse_ind_step_date, parse_ind_step_check::<Date>(any_field_parse()));
+parse_ind_harness!(parse_ind_step_time, parse_ind_step_check::<Time>(any_field_parse()));
+parse_ind_harness!(parse_ind_step_timestamp, parse_ind_step_check::<Timestamp>(any_field_parse()));
+parse_ind_harness!(parse_ind_step_interval_ym, parse_ind_step_check::<IntervalYM>(any_field_parse()));
+parse_ind_harness!(parse_ind_step_interval_dt, parse_ind_step_check::<IntervalDT>(any_field_parse()));
+parse_ind_harness!(parse_ind_finish_date, parse_ind_finish_check::<Date>());
+parse_ind_harness!(parse_ind_finish_time, parse_ind_finish_check::<Time>());
+parse_ind_harness!(parse_ind_finish_timestamp, parse_ind_finish_check::<Timestamp>());
+parse_ind_harness!(parse_ind_finish_interval_ym, parse_ind_finish_check::<IntervalYM>());
+parse_ind_harness!(parse_ind_finish_interval_dt, parse_ind_finish_check::<IntervalDT>());
+// <<< parse_ind
 
 // =========================================================================================
 // C06: every token is lossless on its own - the scanner reads back exactly what the renderer wrote,
